@@ -643,6 +643,8 @@ class DynamicBayesianNetwork(DAG):
         """
         # Reject an inconsistent model before anything is added to it.
         self.check_model()
+        # The new CPDs are added together at the end so that a failure leaves the model as it was.
+        new_cpds = []
         for cpd in self.cpds:
             temp_var = DynamicNode(cpd.variable[0], 1 - cpd.variable[1])
             # Nothing to complete for a variable that has no node in the other slice.
@@ -680,8 +682,13 @@ class DynamicBayesianNetwork(DAG):
                                 cpd.variable_card,
                                 np.reshape(cpd.values, (cpd.variable_card, -1)),
                             )
-                    self.add_cpds(new_cpd)
+                    new_cpds.append(new_cpd)
+        self.add_cpds(*new_cpds)
+        try:
             self.check_model()
+        except Exception:
+            self.remove_cpds(*new_cpds)
+            raise
 
     def moralize(self):
         """
